@@ -446,6 +446,98 @@ UStoreOK == UStore /\ txn'.phase = "stored"
 UStoreFail == UStore /\ txn'.phase = "failed"
 
 (* ---------------------------------- pack -------------------------------- *)
+(***************************************************************************)
+(* LeanFilePack(H, T) = ZPackOps!FilePack(H, T, TRUE) for the histories of  *)
+(* this module (at most one record per oid in a transaction, garbage        *)
+(* collection on).  FilePack is the transcription C07 validates against the *)
+(* code, but TLC re-evaluates its LET definitions at every use, which makes  *)
+(* it take seconds on a history with a few undo records.  The lean version   *)
+(* computes every intermediate result once (CHOOSE y \in {f(x) : x \in {e}}  *)
+(* binds x to the VALUE of e).  LeanPackAgrees is checked by TLC in the      *)
+(* exhaustive configurations; in the replays the real packer is the judge.   *)
+(* A record position is <<transaction index, oid>>.                          *)
+(***************************************************************************)
+The(S) == CHOOSE y \in S : TRUE
+OidsIn(H, i) == {H[i].recs[j].oid : j \in 1..Len(H[i].recs)}
+RecAtP(H, p) == H[p[1]].recs[CHOOSE j \in 1..Len(H[p[1]].recs) : H[p[1]].recs[j].oid = p[2]]
+PosSet(H, I) == UNION {{<<i, o>> : o \in OidsIn(H, i)} : i \in I}
+RECURSIVE LClosure(_, _, _, _)
+\* closure over the references of the records current at the pack time; oids in Stop are not expanded
+LClosure(cur, D, S, Stop) ==
+  LET N == S \cup UNION {IF cur[o] = 0 THEN {} ELSE D[<<cur[o], o>>].refs : o \in (S \ Stop) \cap DOMAIN cur}
+  IN IF N = S THEN S ELSE LClosure(cur, D, N, Stop)
+\* back-pointers from after the pack time to before it, per oid in file order: <<source index, target position>>
+LCross(H, B, A, o) ==
+  {<<i, <<TidPos(H, RecAtP(H, <<i, o>>).back), o>>>> :
+     i \in {i \in A : o \in OidsIn(H, i) /\ RecAtP(H, <<i, o>>).op = "back"
+                      /\ TidPos(H, RecAtP(H, <<i, o>>).back) \in B
+                      /\ o \in OidsIn(H, TidPos(H, RecAtP(H, <<i, o>>).back))}}
+LeanFinish(H, T, B, A, D, cur, reach, miss0, only, ex) ==
+  LET all == OidsOf(H)
+      rootSpecial == miss0 = {0} /\ \A o \in all : cur[o] = 0
+      marked == reach \cup DOMAIN only
+  IN The({
+       LET miss1 == {o \in newly : o \notin DOMAIN cur \/ cur[o] = 0}
+           keyerr == (miss0 # {} /\ ~rootSpecial) \/ miss1 # {}
+           reachFinal == reach \cup (newly \ miss1)
+       IN The({
+            LET keptIn(i) == {o \in OidsIn(H, i) : <<i, o>> \in K}
+                keptTxns == {i \in B : keptIn(i) # {}}
+                freed == \E i \in B : \/ keptIn(i) # OidsIn(H, i)
+                                       \/ H[i].recs = <<>>
+                                       \/ \E j \in 1..Len(H[i].recs) : H[i].recs[j].op = "back"
+                keptTids == {H[i].tid : i \in keptTxns} \cup {H[i].tid : i \in A}
+                backsA == {p \in PosSet(H, A) : RecAtP(H, p).op = "back" /\ TidPos(H, RecAtP(H, p).back) \in B}
+                packerr == \E p \in backsA : RecAtP(H, p).back \notin keptTids
+                asserr == \E p \in backsA : \/ RecAtP(H, p).back \notin keptTids
+                                             \/ <<TidPos(H, RecAtP(H, p).back), p[2]>> \notin K
+                Conv(p) == IF D[p] = Gone
+                           THEN [oid |-> p[2], op |-> "zero", d |-> NoD, back |-> 0, base |-> -1, res |-> FALSE]
+                           ELSE [oid |-> p[2], op |-> "data", d |-> D[p], back |-> 0, base |-> -1, res |-> FALSE]
+                packedTxn(i) == [tid |-> H[i].tid, status |-> "p", meta |-> H[i].meta,
+                                 recs |-> LET ks == SelectSeq(H[i].recs, LAMBDA r : <<i, r.oid>> \in K)
+                                          IN [k \in 1..Len(ks) |-> Conv(<<i, ks[k].oid>>)]]
+                part1 == LET sq == SeqOfSet(keptTxns) IN [k \in 1..Len(sq) |-> packedTxn(sq[k])]
+                part2 == LET sq == SeqOfSet(A) IN [k \in 1..Len(sq) |-> H[sq[k]]]
+            IN IF keyerr THEN [out |-> "KeyError", h |-> H]
+               ELSE IF ~freed THEN [out |-> "nothing-freed", h |-> H]
+               ELSE IF packerr THEN [out |-> "PackError", h |-> H]
+               ELSE IF asserr THEN [out |-> "AssertionError", h |-> H]
+               ELSE [out |-> "ok", h |-> part1 \o part2]
+            : K \in {{p \in PosSet(H, B) :
+                        \/ (p[2] \in reachFinal /\ cur[p[2]] = p[1])
+                        \/ p \in ex
+                        \/ (p[2] \in DOMAIN only /\ p[2] \notin reachFinal /\ only[p[2]] = p)}}})
+       : newly \in {LClosure(cur, D, UNION {D[p].refs : p \in ex}, marked) \ marked}})
+
+LeanFilePack(H, T) ==
+  The({
+    LET unpacked == \E i \in B : H[i].status # "p"
+        probe == IF A # {} THEN H[MinS(A)].status ELSE IF B # {} THEN H[MaxS(B)].status ELSE " "
+    IN IF ~unpacked /\ probe = "p" THEN [out |-> "redundant", h |-> H]
+       ELSE The({
+         The({
+           LET miss0 == {o \in R0 : o \notin DOMAIN cur \/ cur[o] = 0}
+               reach == R0 \ miss0
+               rootSpecial == miss0 = {0} /\ \A o \in DOMAIN cur : cur[o] = 0
+               scan == miss0 = {} \/ rootSpecial
+           IN The({
+                LET firstOf(o) == The({c \in cross[o] : \A c2 \in cross[o] : c[1] <= c2[1]})
+                    onlyOids == IF scan THEN {o \in DOMAIN cross : o \notin reach /\ cross[o] # {}} ELSE {}
+                    only == [o \in onlyOids |-> firstOf(o)[2]]
+                    ex == IF scan
+                          THEN UNION {{c[2] : c \in IF o \in reach \/ cross[o] = {} THEN cross[o] ELSE cross[o] \ {firstOf(o)}} : o \in DOMAIN cross}
+                          ELSE {}
+                IN LeanFinish(H, T, B, A, D, cur, reach, miss0, only, ex)
+                : cross \in {[o \in OidsOf(H) |-> LCross(H, B, A, o)]}})
+           : R0 \in {LClosure(cur, D, {0}, {})}})
+         : D \in {[p \in PosSet(H, 1..Len(H)) |-> DataOfRec(H, RecAtP(H, p))]},
+           cur \in {[o \in OidsOf(H) |->
+                       LET I == {i \in B : o \in OidsIn(H, i)}
+                       IN IF I = {} THEN 0 ELSE IF RecAtP(H, <<MaxS(I), o>>).op = "zero" THEN 0 ELSE MaxS(I)]}})
+    : B \in {{i \in 1..Len(H) : H[i].tid <= T}}, A \in {{i \in 1..Len(H) : H[i].tid > T}}})
+
+
 \* mixin: the packer tags <oid><tid> of every blob record it does not copy (or <oid> when no record of the
 \* object is left); _remove_blob_files_tagged_for_removal_during_pack removes them or moves them to <blobs>.old
 MixinPackFiles(F, H, H2) ==
@@ -462,7 +554,7 @@ LoadableOnly(F, H2) == [k \in {k \in DOMAIN F : k \in BlobRevsOf(H2)} |-> F[k]]
 \* (\E x \in {e} makes TLC evaluate e once; a LET definition is re-evaluated at every use in an action)
 Pack(T) ==
   /\ Idle /\ IsClean(con) /\ T \in 1..clk
-  /\ \E r \in {IF IsMixin THEN FilePack(hist, T, TRUE) ELSE MappingPack(hist, T, TRUE, packed[2])} :
+  /\ \E r \in {IF IsMixin THEN LeanFilePack(hist, T) ELSE MappingPack(hist, T, TRUE, packed[2])} :
      LET done == r.out = "ok" IN
      \E nf \in {IF IsMixin THEN (IF done THEN MixinPackFiles(files, hist, r.h) ELSE files)
                  ELSE IF r.out \in {"ok", "same-time"}
@@ -561,6 +653,8 @@ NoViolation == viol = {}
 \* a file of the transaction in progress carries a tid no snapshot can reach; every snapshot read succeeds
 UncommittedInvisible == \A k \in DOMAIN files : InFlight(k) => \A t \in DOMAIN osnap : k[2] > t
 SnapshotsReadable == \A t \in DOMAIN osnap : \A b \in Blobs : osnap[t][b] # Lost
+\* the lean packer is the packer transcription of ZPackOps (on what this module can reach)
+LeanPackAgrees == IsMixin => \A T \in 1..clk : LeanFilePack(hist, T) = FilePack(hist, T, TRUE)
 \* the incrementally maintained tables are the functions of the state they are meant to be
 DerivedExact == osnap = SnapExpr /\ oiter = IterExpr /\ oview = ViewExpr /\ viol = ViolExpr
 
